@@ -108,13 +108,20 @@ theorem step_inv (s : Scanner) (pos : Nat) (q : List Word) (b : DS) (w : Word) (
         exact ⟨_, rfl, rfl, t1, hq2⟩
       | false =>
         rw [if_neg Bool.false_ne_true]
-        obtain ⟨o1, o2, o3⟩ := outside_inv (scanCfg T2N.Fr.lang zeroThr)
-          { s with parser := { int := (T2N.Fr.apply w {}).2 },
-                   tracker := s.tracker.numberEnd b'.isOrdinal (txt b') v false } (wt w)
-        refine ⟨_, rfl, ?_, ?_, ?_⟩
-        · exact o1
-        · exact o2.trans t1
-        · exact (congrArg (List.map (·.text)) o3).trans hq2
+        -- `Incomplete` on the fresh parser leaves the scanner as it is; any other error goes through `outside`
+        cases hr3 : ((T2N.Fr.apply w {}).1 == some Err.incomplete) with
+        | true =>
+          rw [if_pos rfl]
+          exact ⟨_, rfl, rfl, t1, hq2⟩
+        | false =>
+          rw [if_neg Bool.false_ne_true]
+          obtain ⟨o1, o2, o3⟩ := outside_inv (scanCfg T2N.Fr.lang zeroThr)
+            { s with parser := { int := (T2N.Fr.apply w {}).2 },
+                     tracker := s.tracker.numberEnd b'.isOrdinal (txt b') v false } (wt w)
+          refine ⟨_, rfl, ?_, ?_, ?_⟩
+          · exact o1
+          · exact o2.trans t1
+          · exact (congrArg (List.map (·.text)) o3).trans hq2
   cases r with
   | none => exact ⟨_, rfl, rfl, hh, hq⟩
   | some e =>
